@@ -235,7 +235,7 @@ def r4_sites(rep, ctx):
                 key = "GetInfo-call:%s:%s" % (f.qual.split(".", 2)[-1], norm(ast.unparse(n)))
                 rep.check(not off or allowed, "C16.R4", key, "lookup keeps legacy fixing on" if not off else "strict check turns legacy fixing off (by design: callers retry with the rewritten unit)",
                           "lookup turns legacy fixing off (fix_legacy=%s): legacy spellings are rejected on this route" % ast.unparse(flag) if flag is not None else "", node=n, fn=f)
-    rep.floor("C16.R4", "GetInfo call sites", n_sites, 5)
+    rep.floor("C16.R4", "GetInfo call sites", n_sites, 4)
 
 
 def r5_stored(rep, ctx):
